@@ -104,6 +104,15 @@ theorem c15_cache_irrelevant (c : Cfg) (r : Role) (fs : FileSet) (h : Reach c sr
   rw [c15_x_orphan_not_fatal] at h
   exact startupCached_irrelevant c orphanFatal fs (reach_inv c srcFacts c15_x_generators_propagate r fs h).1 cached
 
+/-- **C15 (a cancelled start-up does not touch an unsealed fraction).**  When the start-up context is cancelled during
+the replay (`Active.Replay` returns `ctx.Err()` before anything else - extracted, `c15_x_replay_cancel`) the loader has
+only opened the files of a fraction it replays: the directory of an unsealed fraction is exactly what it was, so the
+next start serves every acknowledged document.  What a cancelled start-up does to the other fractions is a prefix of a
+complete start-up, hence covered by `c15_startup_total`. -/
+theorem c15_cancelled_start_unchanged (o : Bool) (fs : FileSet) (h : classify fs = .active) (hd : fs.docs ≠ .absent) :
+    run (cancelledStartOps o fs) fs = fs ∧ cancelledStartOps o fs <+: startupOps o fs :=
+  ⟨cancelledStart_unchanged o fs h hd, cancelledStartOps_prefix o fs⟩
+
 /-- **Why `c15_x_orphan_not_fatal` is needed (the defect found in /repo before the repair).**  With the loader as it
 was (`logger.Fatal` on an orphan) a crash between the two `mustOpenFile`s of `NewActive` - reachable from nothing -
 leaves a directory the store cannot start from; so does a crash inside `Active.Suicide`. -/
@@ -171,6 +180,11 @@ theorem c15_x_retention_and_cache :
       -- a cache entry is trusted (`cached = true` in `startupCached`) only when it carries the index size; an entry
       -- without sizes (older format, zeroed) is ignored and the header is read from the index
       newSealedFastPath = "info != nil && info.IndexOnDisk > 0" := by decide
+
+/-- `Active.Replay`: the cancellation branch of its loop returns at once; `truncateTail` is reached only after the loop
+ended on EOF -/
+theorem c15_x_replay_cancel :
+    replayCancelBody = ["return ctx.Err()"] ∧ replayAfterLoop.take 2 = ["wg.Wait", "f.truncateTail"] := by decide
 
 /-! ## Non-vacuity -/
 
